@@ -26,6 +26,7 @@ def swarm(rng):
         # (prefix tests, trailing-name matching) must not confuse A with A2, or B.A with A
         cfg["tops"] = ["A", "A2", "B", "AB"]
         cfg["children"] = ["U", "A"]
+        cfg["pool"] = ["f", "f2", "g", "ga", "h", "hh"]      # cells names too (member names inside archives)
     pr = rng.choice([None, None, ["attr_child_model", "attr_child", "attr_space_model"],
                      ["attr_model", "attr_other", "attr_parent"], ["name", "model_name"]])
     if pr:
